@@ -82,8 +82,10 @@ fn serve(svc: &varlink::VarlinkService, input: &mut dyn Read, output: &mut dyn W
     let mut iface: Option<String> = None;
     let mut buf = [0u8; 8192];
     let mut fed = usize::MAX;
+    let mut continue_without_read = false;
     loop {
-        let again = iface.is_some() && !pending.is_empty() && pending.len() != fed;
+        let again = (iface.is_some() && !pending.is_empty() && pending.len() != fed) || continue_without_read;
+        continue_without_read = false;
         if !again {
             let n = match input.read(&mut buf) {
                 Ok(0) | Err(_) => break,
@@ -93,19 +95,38 @@ fn serve(svc: &varlink::VarlinkService, input: &mut dyn Read, output: &mut dyn W
         }
         fed = pending.len();
         let mut out = vec![];
-        let mut rd: &[u8] = &pending;
+        // a spaced service is fed one message at a time while it is not upgraded, so that what it
+        // writes does not depend on how the requests were segmented
+        let take = if spaced && iface.is_none() {
+            match pending.iter().position(|b| *b == 0) {
+                Some(p) => p + 1,
+                None => {
+                    fed = usize::MAX;
+                    continue;
+                }
+            }
+        } else {
+            pending.len()
+        };
+        let later: Vec<u8> = pending[take..].to_vec();
+        let mut rd: &[u8] = &pending[..take];
         let before = iface.clone();
         match svc.handle(&mut rd, &mut out, iface.clone()) {
             Ok((rest, i)) => {
                 let mut rest = rest;
                 rest.extend_from_slice(rd);
+                rest.extend_from_slice(&later);
                 pending = rest;
                 iface = i;
-                if spaced && before.is_none() && iface.is_none() {
+                if spaced && before.is_none() {
                     out = respace(&out);
                 }
                 if output.write_all(&out).is_err() || output.flush().is_err() {
                     break;
+                }
+                if spaced && iface.is_none() && pending.contains(&0) {
+                    // more complete messages are waiting: no read needed
+                    continue_without_read = true;
                 }
             }
             Err(_) => {
@@ -175,10 +196,14 @@ fn main() {
             let path = addr.strip_prefix("unix:").expect("unix address");
             let _ = std::fs::remove_file(path);
             let l = std::os::unix::net::UnixListener::bind(path).expect("bind");
+            // one service instance for all connections (GetInfo lists the interfaces in the
+            // instance's own map order)
+            let (svc, _p) = vl_tsvc::t_service_with(true);
+            let svc = std::sync::Arc::new(svc);
             for c in l.incoming() {
                 let Ok(c) = c else { continue };
+                let svc = svc.clone();
                 std::thread::spawn(move || {
-                    let (svc, _p) = vl_tsvc::t_service_with(true);
                     let Ok(mut w) = c.try_clone() else { return };
                     let mut r = c;
                     serve(&svc, &mut r, &mut w, true);
